@@ -116,6 +116,24 @@ def explore(ctx, n):
                 o2 = pickle.loads(red.dumps(t(8)))
                 if getattr(o2, "via", None) is not None:
                     fails.append((backend, history, f"a later dumps() without reducers still used a reducer for {t.__name__}"))
+            # the back-end selected now is the one that pickles, whatever back-end this process used before: plain pickle must refuse
+            # what pickle refuses (its table holds none of cloudpickle's private reducers), cloudpickle must pickle what cloudpickle can
+            import types as _types
+            view_now = red.get_loky_pickler()(io.BytesIO()).dispatch_table
+            if backend == "pickle":
+                if _types.CodeType in view_now or _types.CellType in view_now:
+                    fails.append((backend, history, "the 'pickle' back-end's dispatch table holds cloudpickle's private reducers (code objects / cells)"))
+                try:
+                    red.dumps({1: 2}.keys())
+                    fails.append((backend, history, "the 'pickle' back-end pickled a dict view, which pickle itself refuses"))
+                except Exception:  # noqa
+                    pass
+            else:
+                try:
+                    if pickle.loads(red.dumps(lambda x: x + 41))(1) != 42:
+                        fails.append((backend, history, "a lambda pickled by the 'cloudpickle' back-end came back different"))
+                except Exception as e:  # noqa
+                    fails.append((backend, history, f"the 'cloudpickle' back-end cannot pickle a lambda: {type(e).__name__}: {e}"))
             after = snap(red)
             for k in before:
                 if before[k] != after[k]:
